@@ -207,9 +207,6 @@ impl Screen {
             return; // No changes.
         }
 
-        self.dirty.clear();
-        self.dirty.extend(0..lines);
-
         // Rows are dropped from the top of the screen, not of the scrolling region.
         self.margins = None;
 
@@ -229,6 +226,8 @@ impl Screen {
         }
 
         (self.lines, self.columns) = (lines, columns);
+        self.dirty.clear();
+        self.dirty.extend(0..lines);
         self.set_margins(None, None);
         self.ensure_hbounds();
         self.ensure_vbounds(None);
